@@ -139,7 +139,8 @@ class CSSVariablesDeclaration(cssutils.util._NewBase):
             vardeclaration,
             Sequence(
                 PreDef.S(optional=True),
-                PreDef.char(';', ';', toSeq=False, optional=True),
+                # (may be the last token even if comments follow)
+                PreDef.char(';', ';', toSeq=False, optional=True, mayEnd=True),
                 PreDef.S(optional=True),
                 vardeclaration,
                 minmax=lambda: (0, None),
